@@ -128,7 +128,7 @@ def k5a_unit(cls):
                 functions=['%s._parse' % name, '%s.compose' % name])
 
 
-def units(tier, seed):
+def _units_body(tier, seed):
     global EXT_KNOWN
     EXT_KNOWN = listed(KF_EXT)
     from checks import c01, c13, foundation
@@ -149,6 +149,12 @@ def units(tier, seed):
     out.append(hello.unit(('K3', 'K9'), 'K3+K9 premises for the client hello'))
     out.append(kexinit.k5_unit())
     return out + foundation.units(tier, seed)
+
+
+
+def units(tier, seed):
+    from checks import canary
+    return list(_units_body(tier, seed)) + [canary.e1_accepts()]
 
 
 FINDING_REPLAYS = dict(regions.finding_replays('C05'), **{KF_EXT: w_extension})
